@@ -128,6 +128,13 @@ func newTCPRigFault(acceptVeto, postRead, auth, preCall bool, fault string) (*tc
 		return nil
 	}, "")
 	s.RegisterName("Raw", &RawSvc{h: rg.h}, "")
+	// a function registered under the empty service path (rpcx allows it): a request that names no service must
+	// still not reach it through the gateway
+	s.RegisterFunctionName("", "Mul", func(ctx context.Context, a *SArgs, rep *SReply) error {
+		c, err := rg.h.run(a.Id, a.A, a.B, a.Mode, a.Text)
+		rep.Id, rep.C = a.Id, c
+		return err
+	}, "")
 	// the rejecting plugin stands between two plugins that accept everything: a stage's verdict is a
 	// rejection as soon as one of its plugins rejects, wherever it is registered
 	s.Plugins.Add(&stagePlugin{rec: rg.rec})
